@@ -220,7 +220,39 @@ def _c16_vm_sample(d, tier, coq, build, want=300):
     p = subprocess.run(["coqc", "-R", coq, "Oras", "-w", "-notation-overridden", vf], cwd=vdir, timeout=1500,
                        stdout=subprocess.PIPE, stderr=subprocess.STDOUT, text=True)
     with open(os.path.join(d, "vm_sample.txt"), "w") as f:
-        f.write("%d goals %s rc=%dbudget, outcome classification and valid => non-401 are proved on do_request_rd for arbitrary oracle answers (C16_concurrent_budget, C16_concurrent_valid_credentials_succeed); C16_store_intermediate_state: the state between the two map operations of concurrentCache.store is a host-tainted cache too",
+        f.write("%d goals %s rc=%d\n%s" % (len(goals), dict(got), p.returncode, p.stdout[-3000:]))
+    if p.returncode != 0:
+        return ["vm_compute re-evaluation of %d sampled cases inside Coq disagrees with the extracted runner (or does not type-check): %s"
+                % (len(goals), p.stdout[-1200:])]
+    if len(goals) < want // 2:
+        return ["vm_compute sample too small: %d goals" % len(goals)]
+    return []
+
+
+CONFIG = {
+    "properties_file": "Properties/C16.v",
+    "proof_files": ["Base/Prelude.v", "Proofs/Scopes.v", "Proofs/ScopesIdem.v", "Proofs/AuthClient.v", "Proofs/AuthHistory.v", "Proofs/Once.v", "Proofs/CacheSet.v", "Proofs/OnceSlot.v", "Proofs/AuthConc.v", "Proofs/Redirect.v", "Proofs/AuthOrder.v"],
+    "model_files": ["Generated/GC16.v", "Model/Scopes.v", "Model/Challenge.v", "Model/AuthClient.v", "Model/Once.v", "Model/CacheSet.v", "Model/OnceSlot.v", "Model/AuthConc.v", "Model/Redirect.v"],
+    "extract": "XC16.v",
+    "ml_main": "c16_main.ml",
+    "harness": "c16",
+    "case_to_replay": _c16_case,
+    "post_model": _c16_vm_sample,
+    "assumptions": [
+        "Credential(ctx, hostport) returns the credential OF hostport (the model's SBasicTok/SUserPass/SRefresh/SAccess h are tainted with the host they were asked for); a CredentialFunc that ignores its argument is outside the theorems; a CredentialFunc that returns an ERROR is modelled (cf_cred_err, outcome ECred), generated and compared",
+        "ONE host per request: the model's host is http.Request.Host, which Client.Do uses for credentials, cache and scope hints; the wire destination is Request.URL.Host. The theorems say nothing about a caller that sets Host to one registry and URL.Host to ANOTHER (the credentials of Host then travel to URL.Host: caller inconsistency, outside the property's quantifier). The harness generates Host != URL.Host only as another address (alias) of the same registry, with credentials configured for the name only; correspondence and oracle cover it",
+        "the servers are unconstrained: theorems quantify over every answer script (status, Www-Authenticate header bytes, token endpoint outcome, no response) AND over every total challenge parser (parse is a parameter of do_request; no theorem depends on Model/Challenge.v); a token returned by the token endpoint during a request to h is by definition h's token (SIssued h id)",
+        "Model/Challenge.v (used by the runner only) models strconv.QuotedPrefix/Unquote for quoted strings without bytes >= 0x80 and with the escapes backslash-backslash and backslash-quote; for other headers the history case line carries what the real parseChallenge returned (parse_with) and the oracle compares that with the parameters the header was rendered from (challenge-params), so the flow after such a header is still compared; pure C cases outside the subset are UNJUDGED by the model and judged by the same ground truth",
+        "a Bearer challenge without realm, or with an unparsable/relative realm: the model emits the token request (realm = empty string is trivially 'advertised'), Go fails before sending; harmless over-approximation, not generated",
+        "scope hints are caller input: a hint that is empty or contains a space is outside the property (the protocol cannot express it; C16_cache_key_space_refuted shows that it aliases the cache key of another scope set); such hints ARE generated and compared with the model, the clause 'reused only for the same canonical scope set' is claimed for key-safe scopes (C16_cache_key_injective) and for the shared cache only: the single-context cache ignores scopes by design (C16_single_context_cache)",
+        "requests that already carry an Authorization header are passed through unmodified (first lines of Client.Do): not a model request; generated, judged by the oracle (exactly one send, header unchanged) and by the following requests of the history (the cache must not have learned anything)",
+        "net/http's redirect policy (is the Authorization header kept, is the body kept) is modelled in Model/Redirect.v and compared with net/http on every followed redirect (RD cases: other registry, same host name other port, alias address, sub-domain; 302/307/308); C16_redirect_other_port_refuted / C16_redirect_token_post_refuted are the witnesses of the two known findings. Redirects are followed by net/http below auth.Client, not by the modelled Client.Do: the harness answers 3xx (registry -> other registry / same host name other port / alias; token realm -> other host), scans the follow-up requests and reports the two known findings redirect-other-port-keeps-authorization and redirect-token-request-resent by mechanism (request created by a redirect + same host name resp. re-sent token request); a 401 from a redirect target is not generated (the model would treat it as the registry's own answer)",
+        "a send that gets no response (transport error of the underlying http.Client, or the request context cancelled at that moment) is the answer AErr of the model; cancellation while WAITING on another request's in-flight fetch is covered by the Once/CacheSet systems and the concurrent mixes, not by the sequential model",
+        "thorough tier: about 310 sampled correspondence cases (all case kinds) are re-evaluated inside Coq with vm_compute against the extracted runner's output (post_model hook)",
+        "encoding/json, encoding/base64, net/url query/form encoding of the token requests are observed by the harness (decoded on the fake token server) but not modelled; the 'for which host' component of a token-request event is supplied by the harness (the request being served), not observed on the wire: realm, service, scopes and grant are observations",
+        "syncutil.Once, slot bookkeeping: Model/OnceSlot.v is a slot machine whose per-caller program is the list of control paths of Once.Do after the receive, extracted from once.go by the translator kind c16_oncepaths (a statement it does not understand is UNTRANSLATABLE); C16_once_paths_release checks by computation that every path holding the slot hands it back or publishes, C16_once_slot_never_lost proves for every interleaving (callers with dead contexts included) that the slot is free, closed or owned by a caller that will release it; the recorded Once executions are replayed on it and the final slot state is compared with the hook Once.VerifSlotFree (OS cases). The defer/recover path (panic inside f) is not extracted",
+        "syncutil.Once: the Go select/channel semantics are the LTS of Model/Once.v (buffered-1 channel holding true / empty / closed); runtime scheduling is quantified over as arbitrary interleavings of the visible events; panics inside f are not modelled",
+        "CONCURRENCY: Model/AuthConc.v is Client.Do with its three cache reads as oracles and its cache write as an output (do_request is the special case, C16_sequential_is_special_case) and the system of any number of calls over one shared cache whose atomic steps are 'call j looks at the cache' and 'call j finishes'; C16_concurrent_no_cross_host holds for every interleaving. Atomicity assumption: sync.Map operations are atomic and concurrentCache.store is one atomic write (its intermediate state is a cache in which the lookup fails, which the oracle form allows). The budget (<= 3 sends, <= 1 fetch) is per call and independent of the cache, so it holds verbatim for concurrent calls (C16_budget is stated on do_request; do_request_rd has the same send structure). In concurrent mixes every call is replayed on do_request_rd with what the cache told it and what the servers answered (J cases, incl. the token of another call's in-flight fetch as answer AShare); calls that received another call's fetch ERROR are not judged (mixjob/unjudged-shared-failure). budget, outcome classification and valid => non-401 are proved on do_request_rd for arbitrary oracle answers (C16_concurrent_budget, C16_concurrent_valid_credentials_succeed); C16_store_intermediate_state: the state between the two map operations of concurrentCache.store is a host-tainted cache too",
         "concurrentCache.Set under concurrency is the transition system of Model/CacheSet.v (status map, Once instances, results; status.Delete over-approximated). Recorded executions of Set (direct and inside concurrent Client.Do mixes) are accepted by the extracted system: fetch start/end, delivered results and the identity of the in-flight entry (hook VerifInFlight, which recomputes the status key with a copy of the formula) are observed; LoadOrStore/Delete are hidden and PLACED by the harness at the latest point the observations allow, so acceptance means 'a consistent linearisation exists', not 'this was the order' (harness/cmd/c16/settrace.go)",
         "executions in which a delivered token/error cannot be attributed to exactly one fetch (Basic tokens, static access tokens, sentinel errors -- i.e. the long-lived secrets) are not judged by the Set trace acceptor (counted as settrace/*/unjudged; the harness fails if they exceed a quarter of the mixes); for them only the oracle applies",
         "C16_valid_credentials_succeed states 'valid credentials' on the outcome trace (no refused token request, no failed send, no 401 on a fresh send, no missing credential): it is the completeness of the outcome classification of C16_budget, not a statement about a server model",
